@@ -406,9 +406,15 @@ TimerCb(n) ==
 
 \* Environment: the client cancels a root context it handed (or will hand) to SetContext.  Every
 \* context derived from it is cancelled with it; the container itself notices lazily (KC).
+\* (a model configuration may override this with TRUE: contexts are then cancelled only before the
+\* first client call -- "a context that is already cancelled when it is handed over" -- which keeps
+\* the state space of longer programs small)
+RootEarlyOnly == FALSE
+
 CancelRoot(c) ==
     /\ Gate
     /\ RootCancel /\ c \notin ctxdead
+    /\ RootEarlyOnly => \A p \in Procs : ip[p] = 1 /\ pc[p] = "idle"
     /\ ctxdead' = ctxdead \cup {c}
     /\ g' = [x \in Gs |-> IF g[x].tag = c THEN [g[x] EXCEPT !.canc = TRUE] ELSE g[x]]
     /\ PRootCancel(c)
